@@ -30,6 +30,7 @@ DevDeserializeDropsSorted == {"DeserializeDropsSorted"}
 DevRotRenamesShared == {"RotRenamesShared"}
 DevRotTransformUnsorted == {"RotTransformUnsorted"}
 DevBootIgnoresSeed == {"BootIgnoresSeed"}
+DevComputeLoadsInput == {"ComputeLoadsInput"}
 
 St == [m |-> m, r |-> r, snaps |-> snaps]
 \* one JSON line per explored transition (source state, action record, target state)
